@@ -45,6 +45,9 @@ def main():
                     '# a tuple) is treated as a plain product: its aggregates resolve like tuples and its fields positionally.\n')
             f.write('\n'.join(sorted(a['path'] for a in doc['adts'])) + '\n')
         print(len(doc['adts']), 'types')
+        from .mir import fingerprints
+        with open(os.path.join(os.path.dirname(os.path.abspath(__file__)), 'fingerprints.json'), 'w') as f:
+            json.dump(fingerprints(doc), f, indent=0, sort_keys=True)
         return
     if a.cmd == 'explain':
         d = json.load(open(a.path))
